@@ -827,22 +827,43 @@ def _comp_result(engine, n, st, kind, plan, vars_, guard, cond, elts, st_e):
             return
         # filtered list: length / index maps are FUNCTIONS of (source length, the condition as an index->Bool array), so
         # that evaluating the same comprehension twice (code and specification) gives the same terms
-        cond_arr = z3.Lambda([i], cond)
-        elt_arr = z3.Lambda([i], boxed[0])
-        CA = z3.ArraySort(S.Int, S.Bool)
-        f_len = z3.Function("filter_len", S.Int, CA, S.Int)
-        f_src = z3.Function("filter_src", S.Int, CA, S.Int, S.Int)
-        f_inv = z3.Function("filter_inv", S.Int, CA, S.Int, S.Int)
-        m = f_len(plan.n, cond_arr)
-        src = lambda jj: f_src(plan.n, cond_arr, jj)
-        inv = lambda ii: f_inv(plan.n, cond_arr, ii)
+        cond = canon_bool(cond, [i])
+        # one uninterpreted function family per (canonical) condition text: the free symbols of the condition are constants
+        # of this verification run, so equal text means equal condition; no array-valued argument (z3: incomplete)
+        import hashlib
+
+        key = hashlib.md5(z3.substitute(cond, (i, z3.Const("_cv0", i.sort()))).sexpr().encode()).hexdigest()[:12]
+        # every free constant of the condition is an explicit argument (a constant that is later generalised by an
+        # enclosing quantifier must not be hidden inside the function name)
+        free, seen = {}, set()
+        stack = [cond]
+        while stack:
+            e = stack.pop()
+            if e.get_id() in seen:
+                continue
+            seen.add(e.get_id())
+            if z3.is_quantifier(e):
+                stack.append(e.body())
+            elif z3.is_app(e):
+                if e.num_args() == 0 and e.decl().kind() == z3.Z3_OP_UNINTERPRETED and not e.eq(i):
+                    free[e.decl().name()] = e
+                stack.extend(e.children())
+        fargs = [free[k] for k in sorted(free)]
+        fs = [a.sort() for a in fargs]
+        f_len = z3.Function("filter_len!" + key, *fs, S.Int, S.Int)
+        f_src = z3.Function("filter_src!" + key, *fs, S.Int, S.Int, S.Int)
+        f_inv = z3.Function("filter_inv!" + key, *fs, S.Int, S.Int, S.Int)
+        m = f_len(*fargs, plan.n)
+        src = lambda jj: f_src(*fargs, plan.n, jj)
+        inv = lambda ii: f_inv(*fargs, plan.n, ii)
         j, k2 = S.fresh("j", S.Int), S.fresh("k", S.Int)
-        arr = z3.Lambda([j], elt_arr[src(j)])
         at = lambda t, idx: z3.substitute(t, (i, idx))
+        # beta-reduced forms (no select-on-lambda: z3's array theory gives up on those with "incomplete (theory array)")
+        arr = z3.Lambda([j], at(boxed[0], src(j)))
         facts = [
             m >= 0,
             m <= z3.If(plan.n >= 0, plan.n, 0),
-            z3.ForAll([j], z3.Implies(And(0 <= j, j < m), And(0 <= src(j), src(j) < plan.n, cond_arr[src(j)], inv(src(j)) == j))),
+            z3.ForAll([j], z3.Implies(And(0 <= j, j < m), And(0 <= src(j), src(j) < plan.n, at(cond, src(j)), inv(src(j)) == j))),
             z3.ForAll([j, k2], z3.Implies(And(0 <= j, j < k2, k2 < m), src(j) < src(k2))),
             z3.ForAll([i], z3.Implies(And(0 <= i, i < plan.n, cond), And(0 <= inv(i), inv(i) < m, src(inv(i)) == i))),
         ]
@@ -868,6 +889,42 @@ def _comp_result(engine, n, st, kind, plan, vars_, guard, cond, elts, st_e):
         yield st.with_facts([fact]), sv_dict(dom, mp, ety, vty)
         return
     raise OutsideSubset(f"comprehension kind {kind}")
+
+
+def canon_bool(t, bound, max_atoms=8):
+    """canonical propositional form (DNF over the sorted atoms) of a Boolean term: two evaluations of the same source
+    condition (forking code path vs merged specification path) become the SAME term, so that uninterpreted functions of the
+    condition (filter_len ...) coincide without array extensionality.  Equivalence preserving; falls back to simplify()."""
+    import itertools
+
+    atoms = {}
+
+    def collect(e):
+        if z3.is_true(e) or z3.is_false(e):
+            return
+        if z3.is_and(e) or z3.is_or(e) or z3.is_not(e) or z3.is_implies(e) or (z3.is_app_of(e, z3.Z3_OP_ITE) and z3.is_bool(e)) or (z3.is_eq(e) and z3.is_bool(e.arg(0))) or (z3.is_distinct(e) and z3.is_bool(e.arg(0))):
+            for c in e.children():
+                collect(c)
+        else:
+            atoms[e.get_id()] = e
+
+    t = z3.simplify(t)
+    collect(t)
+    ren = [(v, z3.Const("_cv%d" % k, v.sort())) for k, v in enumerate(bound)]
+    A = sorted(atoms.values(), key=lambda a: z3.substitute(a, *ren).sexpr())
+    if not A or len(A) > max_atoms:
+        return t
+    rows = []
+    for bits in itertools.product([False, True], repeat=len(A)):
+        v = z3.simplify(z3.substitute(t, *[(a, z3.BoolVal(b)) for a, b in zip(A, bits)]))
+        if z3.is_true(v):
+            rows.append(bits)
+        elif not z3.is_false(v):
+            return t
+    if not rows:
+        return z3.BoolVal(False)
+    terms = [And(*[a if b else Not(a) for a, b in zip(A, bits)]) if len(A) > 1 else (A[0] if bits[0] else Not(A[0])) for bits in rows]
+    return Or(*terms) if len(terms) > 1 else terms[0]
 
 
 def genexp_to(engine, st, g, kind):
